@@ -184,8 +184,11 @@ def run_case(ctx, case):
         return
     ymax = float(np.max(np.abs(yref))) if n else 0.0
     tol = 64 * yb + 1e-300
+    # (series growing beyond 1e150 are explosive for every practical purpose: sums of
+    # such values - the default mean - overflow in double precision)
     stable = n == 0 or (bool(np.all(np.isfinite(yref))) and bool(np.all(np.isfinite(yb)))
-                        and float(np.max(yb)) <= 1e-6 * max(ymax, 1e-300))
+                        and float(np.max(yb)) <= 1e-6 * max(ymax, 1e-300)
+                        and ymax < 1e150)
     if not stable:
         # explosive coefficients (values overflow): executed, not judged
         ctx.extra["explosive-not-judged"] += 1
